@@ -18,7 +18,7 @@
 
     The muxer itself ([Model/Writer.v]) is a pure state machine over an in-memory buffer; its
     stream programs are the box encoders, for which [io_fault_encoders] is stated. *)
-From MP4 Require Import Reader GenericProofs.
+From MP4 Require Import Reader GenericProofs ShortTransfers.
 Open Scope list_scope.
 Open Scope N_scope.
 
@@ -136,3 +136,63 @@ Example c10_encoder_every_call :
                        | (CIo, true) => true | _ => false end) (upto c10_enc_calls) = true
   /\ woutcome_with_fault c10_enc (mkW 0 [] 0) c10_enc_calls = (COk, false).
 Proof. vm_compute. repeat split; reflexivity. Qed.
+
+(** ** Short transfers and interrupted calls are transparent (second half of C10)
+
+    In the model a transfer is ONE node ([RdExact n] / [WrAll l]); the Rust code reaches the stream through
+    [std::io::Read::read_exact] / [std::io::Write::write_all], whose loops are modelled in [Proofs/ShortTransfers.v]
+    ([rx], [wx]: retry on [Interrupted], advance by what a call transferred, [UnexpectedEof] / [WriteZero] on a zero-length
+    transfer) over a raw stream that follows an ARBITRARY schedule [sched : list ev] — each raw call transfers at most [max k 1]
+    bytes ([Short k]) or fails with [ErrorKind::Interrupted] ([Intr]); after the schedule is used up, calls transfer everything.
+    [run_sched] / [wrun_sched] are [run] / [wrun] with every transfer node replaced by the loop.  For EVERY program and EVERY
+    schedule the result and the final stream (data, position; buffer, position) are those of the all-at-once run.
+    The loops are a model of [std], recorded in the trusted base; that the library uses nothing else is [io_discipline] below. *)
+Theorem short_reads_transparent : forall A (p : prog A) s sched,
+  stream_wf s -> fst (run_sched p s sched) = run p s.
+Proof. exact ShortTransfers.short_reads_transparent. Qed.
+
+Theorem short_writes_transparent : forall A (p : wprog A) w sched,
+  w_base w = 0 -> fst (wrun_sched p w sched) = wrun p w.
+Proof. exact ShortTransfers.short_writes_transparent. Qed.
+
+(** instances: opening, opening a fragment, reading a sample, every box encoder *)
+Corollary short_reads_open : forall fuel m size data pos sched,
+  fst (run_sched (open_fuel fuel m size) (stream_at data pos) sched) = run (open_fuel fuel m size) (stream_at data pos).
+Proof. intros. apply ShortTransfers.short_reads_transparent, stream_at_wf. Qed.
+
+Corollary short_reads_open_fragment : forall fuel m r size data pos sched,
+  fst (run_sched (open_fragment_fuel fuel m r size) (stream_at data pos) sched) = run (open_fragment_fuel fuel m r size) (stream_at data pos).
+Proof. intros. apply ShortTransfers.short_reads_transparent, stream_at_wf. Qed.
+
+Corollary short_reads_read_sample : forall m r tid sid data pos sched,
+  fst (run_sched (rd_read_sample m r tid sid) (stream_at data pos) sched) = run (rd_read_sample m r tid sid) (stream_at data pos).
+Proof. intros. apply ShortTransfers.short_reads_transparent, stream_at_wf. Qed.
+
+Corollary short_writes_moov : forall m v buf pos sched,
+  fst (wrun_sched (enc_moov m v) (mkW 0 buf pos) sched) = wrun (enc_moov m v) (mkW 0 buf pos).
+Proof. intros. now apply ShortTransfers.short_writes_transparent. Qed.
+
+(** non-vacuity: the test file opened one byte per raw call with every third call interrupted: the same reader, thousands of raw calls *)
+Example c10_bytewise_open :
+  let sched := flat_map (fun _ => [Short 1; Short 1; Intr]) (upto 2000) in
+  match run_sched c10_open (stream_at c10_file 0) sched with
+  | (r, s', (rest, calls)) => (r, s') = run c10_open (stream_at c10_file 0) /\ 1000 <? calls = true
+  end.
+Proof. vm_compute. split; reflexivity. Qed.
+
+(** ** The tie of the model's transfer nodes to the source (regenerated by translator/rust2gen.py on every run).
+    The model's programs move bytes only through [RdExact] / [WrAll] (= [read_exact] / [write_all], directly or through the
+    byteorder [read_u32]-style extension methods).  [Tables.io_raw_sites] lists every OTHER byte-moving method call the source
+    contains (raw [read]/[write], [take], [read_to_end], [by_ref], [chain], vectored and buffered calls, [flush]), per file.
+    The model was written against exactly this list:
+    - src/track.rs [by_ref().take(n).read_to_end(&mut buf)] followed by the length check in [Mp4Track::read_sample]
+      (modelled as [RdExact n]: [read_to_end] loops until end of data and retries [Interrupted], the check turns a short result into
+      [UnexpectedEof], so the composite is an exact transfer);
+    - src/mp4box/avc1.rs [sps.write(writer)] / [pps.write(writer)]: [NalUnit::write], the library's own method (modelled);
+    the 52 [BoxHeader::new(..).write(writer)] calls are [BoxHeader::write] (modelled as [write_header]) and counted separately.
+    A change that introduces another raw transfer breaks this lemma: the model no longer describes the code's I/O. *)
+Lemma io_discipline :
+  Tables.io_raw_sites = [ ("src/mp4box/avc1.rs", "write", 2); ("src/track.rs", "by_ref", 1);
+                          ("src/track.rs", "read_to_end", 1); ("src/track.rs", "take", 1) ]%string
+  /\ Tables.boxheader_write_sites = 52.
+Proof. split; reflexivity. Qed.
